@@ -127,6 +127,11 @@ def oracle_c02(v):
             if len(v.finals(t)) != 1:
                 bad.append(('closure-task-not-processed', 'task %d of the closure got %d final reports in a run that was not cut short' % (t, len(v.finals(t)))))
                 break
+    # "no task outside that closure (other than setup-tasks of tasks that execute) is executed at all":
+    # the laziness judgement of oracle_c11 (a setup-task is only touched on behalf of a task that was going to run)
+    for shape, what in oracle_c11(v):
+        if shape == 'setup-task-not-lazy':
+            bad.append(('setup-task-of-non-executing-task', what))
     return bad
 
 
@@ -256,7 +261,14 @@ def oracle_c11(v):
         p0 = p_sub(s, just)
         pr = v.first(1, r)
         fr = [p for p, e in enumerate(v.ev) if e[0] in FINAL and e[1] == r]
-        return p0 is not None and pr is not None and pr < p0 and not (fr and fr[0] < p0)
+        if not (p0 is not None and pr is not None and pr < p0 and not (fr and fr[0] < p0)):
+            return False
+        # ... and r was really going to execute: none of its other dependencies had failed or been ignored
+        # when r was selected (a doomed task is reported unmet / ignored without its setup-tasks being touched)
+        for dd in v.non_setup_deps(r):
+            if any(e[0] in (2, 4) and len(e) > 1 and e[1] == dd for e in v.ev[:pr]):
+                return False
+        return True
     just = set(v.case['selected'])
     changed = True
     while changed:
